@@ -351,4 +351,15 @@ pub fn run(r: &mut Runner) {
             }
         });
     }
+    {
+        let org: Vec<[f64; 2]> = crate::organic::states(1).into_iter().step_by(if quick { 11 } else { 4 }).collect();
+        let no = org.len();
+        r.notes.push(format!("organic pairs for powf: all ordered pairs of {} chain states", no));
+        r.par("organic pairs (chain results): powf", no, (no * no) as u64, |i, l| {
+            for j in 0..no {
+                let v = judge_powf(org[i], org[j], Some(l));
+                rec.record(l, (1u64 << 59) + (i * no + j) as u64, v);
+            }
+        });
+    }
 }
